@@ -144,7 +144,9 @@ def ratToFloat (q : Rat) : Float :=
 /-- the break points an object can hold (`Hmm.breaksOk`: `setBreakPoints` refuses the others) -/
 def validBreaks (T : Nat) (bps : List Nat) : Bool := breaksOk T bps
 
-def small (t : DTables) : Bool := t.n ^ t.T ≤ 3000
+/-- small enough for the enumeration of all hidden paths in exact arithmetic (a single state has one path of any
+length: the length is bounded as well) -/
+def small (t : DTables) : Bool := t.n ^ t.T ≤ 3000 && t.T ≤ 40
 
 /-- exact likelihood of the current tables: enumeration when small, else the unscaled forward
 recursion in exact arithmetic (`forward_is_path_sum`) -/
@@ -267,7 +269,9 @@ def postJudge (o : Obj) (m : List (List Float)) (rows : Option (List Nat)) : Str
           if (ex'.zip m).all (fun (er, r) => (er.zip r).all (fun (q, x) => Float.abs (x - ratToFloat q) ≤ 1e-9)) then "ok"
           else "FAIL:posterior_marginal"
       | none =>
-        -- too long for the exact reference: normalisation only
+        -- too long for the exact reference: normalisation only; data of probability zero (log-likelihood -inf:
+        -- some scale factor is 0) have no posterior
+        if !o.logLik.isFinite then "-" else
         if m.all (fun r => r.all (fun x => x ≥ 0.0) && sumsToOne o.logLik r) then "ok"
         else if m.any (fun r => r.any Float.isNaN) then "-"   -- likelihood underflowed to 0: posterior undefined
         else "FAIL:posterior_prob"
